@@ -52,10 +52,12 @@ Theorem c41_pmade_flags : forall o ts allow T P srcs, PMade o ts allow T P srcs 
 Proof. exact pmade_flags. Qed.
 
 (* limits: everything `add` lets in passed validate_one, and after optimize every group still
-   respects max_instructions_per_tx and its estimated size (measured with the compute-budget
-   instructions and either without or with the memo) is within max_transaction_size *)
+   respects max_instructions_per_tx and its estimated size — measured on exactly the instruction
+   list the transaction is built from (compute budget + configured memo) — is within
+   max_transaction_size *)
 Theorem c41_limits_respected : forall o ts allow adds f,
-  In f (tg_groups (tg_optimize o ts allow (fst (tg_add_all o ts adds)))) -> within o ts f.
+  In f (tg_groups (tg_optimize o ts allow (fst (tg_add_all o ts adds)))) ->
+  ag_len f <= o_max_ix o /\ group_size true (o_memo o) ts f <= o_max_size o.
 Proof.
   intros o ts allow adds f Hf.
   destruct (c41_final_groups_made _ _ _ _ _ Hf) as [parts Hm].
@@ -63,41 +65,32 @@ Proof.
   intros g Hg. apply validate_within. apply (tg_add_all_valid o ts adds g Hg).
 Qed.
 
-(* without a memo the bound is on exactly the instruction list the transaction is built from *)
-Corollary c41_limits_respected_no_memo : forall o ts allow adds f, o_memo o = None ->
-  In f (tg_groups (tg_optimize o ts allow (fst (tg_add_all o ts adds)))) ->
-  ag_len f <= o_max_ix o /\ group_size true None ts f <= o_max_size o.
-Proof.
-  intros o ts allow adds f Hmemo Hf. destruct (c41_limits_respected _ _ _ _ _ Hf) as [A B].
-  split; [exact A|]. rewrite Hmemo in B. destruct B; assumption.
-Qed.
-
-(* estimate vs serialized size: the estimate is never ABOVE the real size, the difference is exactly
-   the uncounted compact-u16 bytes, and it vanishes below 128 tables / 128 distinct accounts *)
-Theorem c41_real_minus_estimate : forall payer l ts,
-  let can := filter (fun k => negb (memz k (programs_of l)) && negb (memz k (signers_of payer l))) (accounts_of payer l) in
-  real_size payer l ts = estimate payer l ts + (c16 (snd (lookup_pass can ts)) - 1) + extra payer l can ts.
-Proof. exact real_minus_estimate. Qed.
-
-Theorem c41_estimate_ge_real_small : forall payer l ts,
-  lenZ ts <= 127 -> lenZ (accounts_of payer l) <= 127 -> estimate payer l ts = real_size payer l ts.
+(* estimate vs serialized size: the estimate is exactly the size of the serialized transaction
+   ([real_size], the hand model tied to bincode), for every payer, instruction list and tables *)
+Theorem c41_estimate_eq_real : forall payer l ts, estimate payer l ts = real_size payer l ts.
 Proof. exact estimate_eq_real. Qed.
 
-(* ---------- witnesses of the two known findings (model; both replayed on the real code) ---------- *)
-(* class 2: 128 read-only keys served by one table: estimate = real - 1 *)
-Theorem c41_estimate_below_real_refuted : exists payer l ts, estimate payer l ts < real_size payer l ts.
+(* hence every final group's serialized transaction is within max_transaction_size *)
+Theorem c41_real_size_within_limit : forall o ts allow adds f,
+  In f (tg_groups (tg_optimize o ts allow (fst (tg_add_all o ts adds)))) ->
+  real_size (a_payer f) (ixs_with_options true (o_memo o) f) ts <= o_max_size o.
 Proof.
-  exists 1, [mkIx 1 100 (map (fun k => mkAcct (2000 + Z.of_nat k) false false) (seq 0 128)) 4],
-         [(700, map (fun k => 2000 + Z.of_nat k) (seq 0 150))].
-  vm_compute. reflexivity.
+  intros o ts allow adds f Hf. rewrite <- estimate_eq_real.
+  apply (c41_limits_respected o ts allow adds f Hf).
 Qed.
-(* class 1: a group passes validate_one but its size with the configured memo exceeds the limit *)
-Theorem c41_memo_not_counted_refuted : exists o ts g,
-  validate_one o ts g = true /\ o_max_size o < group_size true (o_memo o) ts g.
-Proof.
-  exists (mkOpts 400 14 (Some 150)), [], (mkAg 1 [mkIx 1 100 [mkAcct 2 false true] 60] true).
-  vm_compute. split; reflexivity.
-Qed.
+
+(* ---------- witnesses of the known findings ---------- *)
+(* class 2 (repaired): 128 read-only keys served by one table are now counted exactly *)
+Example c41_ex_compact_u16_counted :
+  estimate 1 [mkIx 1 100 (map (fun k => mkAcct (2000 + Z.of_nat k) false false) (seq 0 128)) 4]
+             [(700, map (fun k => 2000 + Z.of_nat k) (seq 0 150))]
+  = real_size 1 [mkIx 1 100 (map (fun k => mkAcct (2000 + Z.of_nat k) false false) (seq 0 128)) 4]
+              [(700, map (fun k => 2000 + Z.of_nat k) (seq 0 150))].
+Proof. vm_compute. reflexivity. Qed.
+(* class 1 (repaired): the former witness group is now rejected by validate_one *)
+Example c41_ex_memo_counted :
+  validate_one (mkOpts 400 14 (Some 150)) [] (mkAg 1 [mkIx 1 100 [mkAcct 2 false true] 60] true) = false.
+Proof. vm_compute. reflexivity. Qed.
 
 (* ---------- non-vacuity ---------- *)
 Example c41_ex_merge :
